@@ -100,6 +100,7 @@ fn handle(line: &str, oracle: bool) -> String {
             _ => bad(),
         },
         (["DFENC", id, rest @ ..], false) => l3::op_dfenc(id, rest),
+        (["DFENCF", id, rest @ ..], _) => l3::op_dfenc_fill(0xff, id, rest),
         (["DEC", h], false) => unhex(h).map(|d| l3::op_dec(&d)).unwrap_or_else(bad),
         (["DEC", h], true) => unhex(h).map(|d| l3::oracle_dec(&d)).unwrap_or_else(bad),
         // ENC with every list in a container that has a history (stale elements behind the active part)
